@@ -11,4 +11,5 @@ one() {
   rm -rf $t
 }
 export -f one
-(echo ""; ls -d seeded/benign/R*-R*) | xargs -P 4 -I{} bash -c 'one "{}"'
+one ""
+ls -d seeded/benign/R*-R* | xargs -P 4 -I{} bash -c 'one "{}"'
